@@ -54,6 +54,7 @@ CHECKS["C19"] = dict(
         "stateful declarations inside if/for (documented at function top level only); statements after return; "
         "literals that cannot be spelled: the minimum of a signed type (`-128` is rejected as unary minus of 128), integers above MaxInt64, negated unsigned literals, NaN/inf",
     ],
+    fuzz=[dict(target="FuzzC19CompileText", thorough=dict(seconds=240, workers=16))],
     tests=[
         dict(name="TestC19", env={"C19_AVOID_DEFAULT": _C19_AVOID},
              quick=dict(cases=5000, shards=8, timeout=900), thorough=dict(cases=25000, shards=16, timeout=3000)),
